@@ -111,7 +111,136 @@ def cases(rng, tier):
         options = [[n, rng.choice(shapes)] for n in onames]
         now, lw = rng.choice(NOWS)
         out.append({"claims": claims, "options": options, "now": q4(now), "leeway": q4(lw)})
+    out += derived_cases(rng, tier)
     return out
+
+
+# ---- the derived claim sets: OpenID Connect ID Token classes and RFC 9068 access-token claims -----------------------
+D_NOW = 1000
+NONCE_POOL = ["n-0S6_WzA2Mj", "other", "", 123456, True, None, ["n-0S6_WzA2Mj"], "<absent>"]
+NONCE_PARAMS = ["n-0S6_WzA2Mj", "123456", "True", "", None]
+AUTH_TIME_POOL = [990, 990.5, "990", True, 0, None, [990], "<absent>"]
+AMR_POOL = [["pwd"], [], "pwd", 5, None, True, "<absent>"]
+AZP_POOL = ["rp", "other", "", None, 5, "<absent>"]
+TYP_POOL = ["at+jwt", "AT+JWT", "application/at+jwt", "JWT", "xat+jwt", "at+jwtx", " at+jwt", "", None, 5, True, ["at+jwt"], "<absent>"]
+
+
+def derived_cases(rng, tier):
+    out = []
+    base = {"iss": "https://op", "sub": "u1", "aud": "rp", "exp": D_NOW + 100, "iat": D_NOW - 10}
+    def mk(cls, changes, params, lw=0, now=D_NOW, options=None):
+        p = dict(base, nonce="n-0S6_WzA2Mj") if cls != "code" else dict(base)
+        for k, v in changes.items():
+            if v == "<absent>":
+                p.pop(k, None)
+            else:
+                p[k] = v
+        try:
+            claims = [[k, enc(v)] for k, v in p.items()]
+        except (TypeError, AssertionError):
+            return
+        out.append({"derived": cls, "claims": claims, "options": options or [["iss", {"essential": True, "value": "https://op"}], ["aud", {"essential": True, "value": "rp"}]],
+                    "params": params, "alg": "HS256", "now": q4(now), "leeway": q4(lw)})
+    for cls in ("code", "implicit", "hybrid"):
+        for nv in NONCE_POOL:
+            for pn in NONCE_PARAMS:
+                mk(cls, {"nonce": nv}, {"nonce": pn, "client_id": "rp"})
+        for av in AUTH_TIME_POOL:
+            for ma in (False, True):
+                mk(cls, {"auth_time": av}, {"nonce": "n-0S6_WzA2Mj", "client_id": "rp", "max_age": ma})
+        for am in AMR_POOL:
+            mk(cls, {"amr": am}, {"nonce": "n-0S6_WzA2Mj", "client_id": "rp"})
+        for az in AZP_POOL:
+            for aud in ("rp", ["rp"], ["rp", "x"], "x", ["x"]):
+                for cid in ("rp", None):
+                    mk(cls, {"azp": az, "aud": aud}, {"nonce": "n-0S6_WzA2Mj", "client_id": cid},
+                       options=[["iss", {"essential": True, "value": "https://op"}]])
+        for off, lw in ((-1, 0), (-1, 2), (-3, 2), (0, 0)):
+            mk(cls, {"exp": D_NOW + off}, {"nonce": "n-0S6_WzA2Mj", "client_id": "rp"}, lw=lw)
+            mk(cls, {"nbf": D_NOW - off}, {"nonce": "n-0S6_WzA2Mj", "client_id": "rp"}, lw=lw)
+    at_base = {"iss": "https://as", "aud": "https://rs", "exp": D_NOW + 100, "iat": D_NOW - 10, "sub": "u1", "client_id": "c1", "jti": "j1"}
+    for typ in TYP_POOL:
+        for ch in ({}, {"auth_time": "x"}, {"auth_time": True}, {"amr": "pwd"}, {"scope": 0}, {"groups": False}, {"scope": ["a"]}, {"client_id": ""}, {"aud": ["x", "https://rs"]},
+                   {"aud": "x"}, {"iss": "https://as/"}, {"exp": D_NOW - 1}, {"jti": "<absent>"}, {"roles": 5}, {"entitlements": "e1 e2"}):
+            p = dict(at_base)
+            for k, v in ch.items():
+                if v == "<absent>": p.pop(k, None)
+                else: p[k] = v
+            c = {"derived": "at9068", "claims": [[k, enc(v)] for k, v in p.items()], "options": [], "params": {}, "issuer": "https://as", "rs": "https://rs",
+                 "now": q4(D_NOW), "leeway": 0}
+            if typ != "<absent>":
+                c["typ"] = enc(typ)
+            out.append(c)
+    return out
+
+
+def impl_derived(c):
+    from authlib.oidc.core import CodeIDToken, ImplicitIDToken, HybridIDToken
+    from authlib.oauth2.rfc9068.claims import JWTAccessTokenClaims
+    payload, options, now, lw = build(c)
+    if c["derived"] == "at9068":
+        header = {"alg": "HS256"}
+        if "typ" in c:
+            header["typ"] = dec(c["typ"])
+        options = {"iss": {"essential": True, "validate": lambda cl, v: v == c["issuer"]}, "exp": {"essential": True}, "aud": {"essential": True, "value": c["rs"]},
+                   "sub": {"essential": True}, "client_id": {"essential": True}, "iat": {"essential": True}, "jti": {"essential": True}, "auth_time": {"essential": False},
+                   "acr": {"essential": False}, "amr": {"essential": False}, "scope": {"essential": False}, "groups": {"essential": False}, "roles": {"essential": False},
+                   "entitlements": {"essential": False}}
+        obj = JWTAccessTokenClaims(payload, header, options)
+    else:
+        cls = {"code": CodeIDToken, "implicit": ImplicitIDToken, "hybrid": HybridIDToken}[c["derived"]]
+        params = {k: v for k, v in c["params"].items() if v is not None and k != "max_age"}
+        if c["params"].get("max_age"):
+            params["max_age"] = 300
+        obj = cls(payload, {"alg": c["alg"]}, options, params)
+    try:
+        obj.validate(now=now, leeway=lw)
+        return {"ok": True}
+    except je.MissingClaimError as e:
+        return {"err": "missing_claim", "claim": e.description.split("'")[1]}
+    except je.InvalidClaimError as e:
+        return {"err": "invalid_claim", "claim": e.claim_name}
+    except je.ExpiredTokenError:
+        return {"err": "expired_token"}
+    except je.InvalidTokenError:
+        return {"err": "invalid_token"}
+    except Exception as e:
+        return {"raised": type(e).__name__}
+
+
+def derived_violations(c, payload, now, lw):
+    """the additional rules of the derived claim sets, independently"""
+    bad = set()
+    if c["derived"] == "at9068":
+        typ = dec(c["typ"]) if "typ" in c else None
+        if typ and not (isinstance(typ, str) and typ.lower() in ("at+jwt", "application/at+jwt")):
+            bad.add(("value", "typ"))
+        at = payload.get("auth_time")
+        if at and not isinstance(at, (int, float)):
+            bad.add(("value", "auth_time"))
+        if payload.get("amr") and not isinstance(payload["amr"], list):
+            bad.add(("value", "amr"))
+        for k in ("scope", "groups", "roles", "entitlements"):
+            if payload.get(k) is not None and not isinstance(payload[k], (str, list)):
+                bad.add(("value", k))
+        return bad
+    p = c["params"]
+    for k in ("iss", "sub", "aud", "exp", "iat") + (("nonce",) if c["derived"] != "code" else ()):
+        if k not in payload:
+            bad.add(("missing", k))
+    if p.get("nonce"):
+        if "nonce" not in payload:
+            bad.add(("missing", "nonce"))
+        elif not (isinstance(payload["nonce"], str) and payload["nonce"] == p["nonce"]):
+            bad.add(("value", "nonce"))
+    at = payload.get("auth_time")
+    if p.get("max_age") and not at:
+        bad.add(("missing", "auth_time"))
+    if at and not isinstance(at, (int, float)):
+        bad.add(("value", "auth_time"))
+    if payload.get("amr") and not isinstance(payload["amr"], list):
+        bad.add(("value", "amr"))
+    return bad
 
 
 def build(c):
@@ -134,6 +263,8 @@ def build(c):
 
 
 def impl(c):
+    if c.get("derived"):
+        return impl_derived(c)
     payload, options, now, lw = build(c)
     claims = JWTClaims(payload, {}, options)
     try:
@@ -192,6 +323,20 @@ def violated(payload, options, now, lw):
 
 def oracle(c, out):
     payload, options, now, lw = build(c)
+    if c.get("derived"):
+        if c["derived"] == "at9068":
+            options = {"iss": {"essential": True, "value": c["issuer"]}, "exp": {"essential": True}, "aud": {"essential": True, "value": c["rs"]}, "sub": {"essential": True},
+                       "client_id": {"essential": True}, "iat": {"essential": True}, "jti": {"essential": True}}
+        bad = violated(payload, options, now, lw) | derived_violations(c, payload, now, lw)
+        if "raised" in out:
+            return [(f"{c['derived']} validate raised {out['raised']} (outside the JOSE error family)", {"kind": "crash", "exc": out["raised"], "derived": c["derived"]})]
+        azp_in_play = c["derived"] != "at9068" and ("azp" in payload or (c["params"].get("client_id") and payload.get("aud") not in (c["params"]["client_id"], [c["params"]["client_id"]])))
+        if "ok" in out and bad:
+            return [(f"{c['derived']} claims accepted although: {sorted(bad)}", {"kind": "accepted-nonconforming", "constraint": sorted(bad)[0][0], "claim": sorted(bad)[0][1],
+                                                                              "derived": c["derived"]})]
+        if "ok" not in out and not bad and not azp_in_play:
+            return [(f"conforming {c['derived']} claims refused with {out}", {"kind": "refused-conforming", "err": out["err"], "derived": c["derived"]})]
+        return []
     bad = violated(payload, options, now, lw)
     v = []
     if "raised" in out:
